@@ -1322,3 +1322,47 @@ def pipeline_repeatable(ctx, check_shape, fn):
     ctx.ensure("second-call=first-call", ctx.eq(r2, r1))
     exp = [v - t - mu for v in vals] if fn == "remove" else [v + t + mu for v in vals]
     ctx.ensure("second-call=documented-value", ctx.eq(r2, arr(ctx, exp)))
+
+
+# --- fit_normalizer: the normalizer is fitted to the detrended field (documented order) -------------------
+def _recording_normalizer():
+    from gstools.normalizer import Normalizer
+
+    class Rec(Normalizer):
+        """identity normalizer whose fit records (a copy of) the data it is given -- ghost state"""
+        seen = None
+
+        def fit(self, data, skip=None, **kwargs):
+            rows = np.array(data, dtype=object, copy=True)       # list of fields or a stacked array
+            self.seen = list(rows.reshape(-1, rows.shape[-1]))
+            return {}
+
+    return Rec()
+
+
+@contract(P, "tools.remove_trend_norm_mean/fit_normalizer-fits-the-detrended-field",
+          params={"stacked": [False, True], "trend": ["const", "callable"]},
+          functions=["normalizer/tools.py:remove_trend_norm_mean", "tools/misc.py:eval_func",
+                     "tools/misc.py:_func_from_single_val"],
+          bounded="1-D, 3 points, 1 or 2 stacked fields")
+def pipeline_fit_order(ctx, stacked, trend):
+    """docstring: 'fit_normalizer: whether to fit the data-normalizer to the given (detrended) field';
+    the fitted normalizer is returned as second value; mean is subtracted after normalisation"""
+    from gstools.normalizer import remove_trend_norm_mean
+    t, s, mu = ctx.real("trend", lo=-3, hi=3), ctx.real("slope", lo=-2, hi=2), ctx.real("mean", lo=-3, hi=3)
+    xs = [0.0, 1.0, 2.0]
+    nf = 2 if stacked else 1
+    vals = [[ctx.real("f%d_%d" % (k, i), lo=-2, hi=2) for i in range(3)] for k in range(nf)]
+    f = arr(ctx, vals if stacked else vals[0])
+    targ = t if trend == "const" else (lambda x: t + s * x)
+    tat = (lambda x: t) if trend == "const" else (lambda x: t + s * x)
+    rec = _recording_normalizer()
+    with np.errstate(all="ignore"):
+        out = _quiet(remove_trend_norm_mean, np.array([xs]), f, mean=mu, normalizer=rec, trend=targ,
+                     stacked=stacked, fit_normalizer=True)
+    ctx.ensure("returns-(field,normalizer)", isinstance(out, tuple) and len(out) == 2 and out[1] is rec)
+    ctx.ensure("fit-called-once-with-all-fields", rec.seen is not None and len(rec.seen) == nf)
+    det = [[vals[k][i] - tat(xs[i]) for i in range(3)] for k in range(nf)]
+    ctx.ensure("fit-data=field-trend", ctx.And(*[ctx.eq(rec.seen[k], arr(ctx, det[k])) for k in range(nf)]))
+    want = [[d - mu for d in det[k]] for k in range(nf)]
+    ctx.ensure("out=normalize(field-trend)-mean", ctx.eq(out[0], arr(ctx, want if stacked else want[0])))
